@@ -358,12 +358,13 @@ def plan(tier):
     for n in ([1, 2] if q else [1, 2]):
         jobs.append((CanonicalForm(n=n), {}))
     for n in ([2] if q else [2, 3]):
-        for i, j in itertools.combinations(range(n), 2):
+        # n = 3: adjacent swaps and one transvection generate GL(3,2) (transvections are conjugate under permutations)
+        for i, j in (itertools.combinations(range(n), 2) if n == 2 else [(0, 1), (1, 2)]):
             h = Gauge(n=n, kind="swap", i=i, j=j)
             h.parallel = n >= 3
             h.partial_ok = n >= 3
             jobs.append((h, {"time_budget": 2400}))
-        for i, j in itertools.permutations(range(n), 2):
+        for i, j in (itertools.permutations(range(n), 2) if n == 2 else [(0, 1)]):
             h = Gauge(n=n, kind="mul", i=i, j=j)
             h.parallel = n >= 3
             h.partial_ok = n >= 3
@@ -388,7 +389,7 @@ def plan(tier):
             h.partial_ok = True
             jobs.append((h, {"time_budget": budget, "chunk_paths": 16, "chunk_s": 8.0}))
     if not q:
-        for h, budget in ((CanonicalForm(n=3), 3600), (Fidelity(n=2, symmetry=False), 2 * 3600), (FidelitySelf(n=3), 3 * 3600), (FidelitySelf(n=4), 3600)):
+        for h, budget in ((CanonicalForm(n=3), 3600), (Fidelity(n=2, symmetry=False), 2 * 3600), (FidelitySelf(n=3), 2 * 3600), (FidelitySelf(n=4), 1800)):
             h.parallel = True
             h.partial_ok = True  # budgets are sized to complete on an idle 16-core machine; a truncated run is reported as PARTIAL
             jobs.append((h, {"time_budget": budget, "chunk_paths": 64}))
